@@ -173,6 +173,14 @@ def facts_of(fn: ast.AST, source: str) -> dict:
             return out
     else:
         inner = e
+        # guard-clause form of the same thing:  if not F: return None
+        for gtest in guards:
+            if isinstance(gtest, ast.UnaryOp) and isinstance(gtest.op, ast.Not) and filtered(gtest.operand, source) is not None:
+                cond_empty = filtered(gtest.operand, source)
+            elif isinstance(gtest, ast.Compare) and len(gtest.ops) == 1 and isinstance(gtest.ops[0], ast.Eq) and _call(gtest.left, "len") \
+                    and isinstance(gtest.comparators[0], ast.Constant) and gtest.comparators[0].value == 0 \
+                    and filtered(gtest.left.args[0], source) is not None:
+                cond_empty = filtered(gtest.left.args[0], source)
     # --- simple reducers
     for red in ("sum", "min", "max", "any", "all"):
         if _call(inner, red):
